@@ -864,6 +864,21 @@ def check_caches(run, modules, rule, functions=None, prog=None, zero_is_a_value=
                          "%s reads '%s', which is bound nowhere: it is not a parameter, is assigned on no path of the function and is not a name "
                          "of the module (or its declaration file) or a builtin -- the call raises NameError / UnboundLocalError (a declared C local "
                          "that is only augmented starts from an undefined value) instead of computing its result" % (name, nb_.id))
+            from .rules._purity import unbound_after_handler
+            for t_, nm_, use_ in unbound_after_handler(fn):
+                nstores += 1
+                run.subject(rule)
+                run.fail(rule, '%s|%s|unbound-after-handler:%s' % (mi.name, name, nm_), mi.relpath, use_.lineno,
+                         "%s reads '%s' after a try statement whose body is the only place that assigns it and whose handler (line %d) falls "
+                         "through without assigning it: when the handled exception occurs the read raises UnboundLocalError instead of the "
+                         "documented fallback" % (name, nm_, t_.handlers[0].lineno))
+            from .rules._purity import guards_contradicting_their_message
+            for g_, why_ in guards_contradicting_their_message(fn):
+                nstores += 1
+                run.subject(rule)
+                run.fail(rule, '%s|%s|guard-vs-message:%s' % (mi.name, name, norm(g_.test)[:40]), mi.relpath, g_.lineno,
+                         "%s: the guard '%s' %s: the test contradicts the rule its own error message states, so valid input is rejected and "
+                         "invalid input accepted" % (name, norm(g_.test)[:60], why_))
             from .rules._purity import falsy_numeric_default
             # only where 0 is a meaningful argument (bounds, coordinates of the function wrappers); elsewhere 'count or default' treats 0 as 'unset' on purpose
             for n_, x_ in (falsy_numeric_default(fn) if zero_is_a_value else ()):
